@@ -293,9 +293,9 @@ pub enum WKind {
     ReplaceWith,
 }
 pub const WKINDS: [WKind; 5] = [WKind::Set, WKind::Update, WKind::Modify, WKind::Replace, WKind::ReplaceWith];
-const FN_UPDATE: u16 = 40;
-const FN_MODIFY: u16 = 41;
-const FN_REPLACE_WITH: u16 = 42;
+const FN_UPDATE: u16 = 100;
+const FN_MODIFY: u16 = 101;
+const FN_REPLACE_WITH: u16 = 102;
 
 /// a write to be performed from inside a user function during stabilise
 pub struct Armed {
@@ -543,7 +543,7 @@ fn cut_fn<const I: usize>(a: &SV, b: &SV) -> bool {
     if eq {
         return a == b;
     }
-    decide_pred(8 + I as u16, &[a.clone(), b.clone()])
+    decide_pred(16 + I as u16, &[a.clone(), b.clone()])
 }
 
 const RHS_FN_BASE: u16 = 16;
@@ -674,7 +674,7 @@ impl World {
     /// Build a node with the public API. Inputs must still have live handles.
     pub fn build(&mut self, spec: Spec) -> usize {
         let i = self.nodes.len();
-        assert!(i < 8, "world supports at most 8 nodes");
+        assert!(i < 16, "world supports at most 16 nodes");
         let f = i as u16;
         let sh = self.sh.clone();
         let key = NodeKey::Main(i);
@@ -849,14 +849,22 @@ impl World {
                 4 => cut_fn::<4>,
                 5 => cut_fn::<5>,
                 6 => cut_fn::<6>,
-                _ => cut_fn::<7>,
+                7 => cut_fn::<7>,
+                8 => cut_fn::<8>,
+                9 => cut_fn::<9>,
+                10 => cut_fn::<10>,
+                11 => cut_fn::<11>,
+                12 => cut_fn::<12>,
+                13 => cut_fn::<13>,
+                14 => cut_fn::<14>,
+                _ => cut_fn::<15>,
             })),
             CutKind::Boxed => h.set_cutoff_fn_boxed(move |a: &SV, b: &SV| {
                 sh.invoke(NodeKey::Cutoff(n), vec![a.clone(), b.clone()]);
                 if sh.cut_eq.get() {
                     return a == b;
                 }
-                decide_pred(8 + n as u16, &[a.clone(), b.clone()])
+                decide_pred(16 + n as u16, &[a.clone(), b.clone()])
             }),
         }
         self.nodes[n].cutoff = k;
@@ -879,7 +887,7 @@ impl World {
                         require("C06/cutoff-arguments", F::and(vec![F::eq(&inv.args[0], old), F::eq(&inv.args[1], new)]), move || format!("cutoff of node {i} was called with {a2:?}, expected (old, new) = ({o2:?}, {n2:?})"));
                     }
                 }
-                decide_pred(8 + i as u16, &[old.clone(), new.clone()])
+                decide_pred(16 + i as u16, &[old.clone(), new.clone()])
             }
         }
     }
